@@ -78,6 +78,8 @@ def gen_case(seed, i):
     symbols = SYMS[:n]
     start_day = dt.date(2018, 1, 1) + dt.timedelta(days=rng.randrange(0, 1400))
     kind, weekday = KINDS[(i // 4) % 7] if flavour else rng.choice(KINDS[:6])
+    if i % 6 == 5:
+        kind, weekday = "end_of_month", None        # (one month-end schedule in every six cases, hence in the quick tier too)
     weeks = rng.randint(4, 9)
     if kind == "end_of_month":
         weeks = max(weeks, 7)
@@ -115,7 +117,7 @@ def gen_case(seed, i):
 def other_cfg(cfg):
     """An unrelated session over the same data (used to give the shared data source a history)."""
     out = dict(cfg)
-    out["rebalance"], out["weekday"] = "daily", None
+    out["rebalance"], out["weekday"] = ("daily" if cfg["rebalance"] != "daily" else "end_of_month"), None
     out["long_only"] = not cfg["long_only"]
     out["burn_in"] = None
     out["universe"] = {"kind": "static"}
@@ -170,6 +172,8 @@ def in_process(case):
         # runs A-D all happen in a process that has already served other data; the fresh interpreters have not
         with tempfile.TemporaryDirectory(prefix="c18x_") as d2:
             M.write_market(d2, M.gen_market(dict(case["market"], seed=case["market"]["seed"] + 1)))
+            # ... preceded by a DIFFERENTLY configured session over the same dates (daily schedule, other sizer, other weights)
+            M.run_session(d2, other_cfg(cfg))
             M.run_session(d2, cfg)
         a = parts(M.run_session(d, cfg))
         b = parts(M.run_session(d, cfg))
